@@ -256,9 +256,7 @@ func runMultiCase(c *corr.Ctx, in *MultiInput, name string) {
 					sdesMu.Unlock()
 					return
 				}
-				if k%4 == 3 {
-					time.Sleep(time.Millisecond)
-				}
+				time.Sleep(time.Millisecond) // the per-reader write queue holds 256 entries; a full queue drops the packet for that reader
 			}
 		}(g)
 	}
@@ -367,7 +365,13 @@ func runMultiCase(c *corr.Ctx, in *MultiInput, name string) {
 				multiViol(c, "only RTCP written by the stream is delivered", "sec-multi-rtcp-forged", in, fmt.Sprintf("reader %d", i))
 			}
 		}
-		if r.kind == "savp-tcp" && len(sdesRx) != len(sdesSent) {
+		ts.h.mu.Lock()
+		queueFull := len(ts.h.setupErr)
+		ts.h.mu.Unlock()
+		if queueFull > 0 {
+			c.Dist("multi-write-queue-full")
+		}
+		if r.kind == "savp-tcp" && len(sdesRx) != len(sdesSent) && queueFull == 0 {
 			multiViol(c, "every secure reader decrypts every RTCP packet of the stream", "sec-multi-rtcp-missing", in, fmt.Sprintf("reader %d: %d of %d", i, len(sdesRx), len(sdesSent)))
 		}
 		un := unwrap{}
